@@ -48,6 +48,9 @@ def shaped(g):
     # cyclic embedding: the generator comes back, and the back reference (always nil) is never dereferenced
     for side, v in (("src", "self"), ("dest", "self"), ("src", "mutual"), ("dest", "inner")):
         out.append(("cyclic-embed-%s-%s" % (side, v), g.pair(**dict(BASE, embeds=1.0, ptr_embed=0.8, selfembed=1.0, selfembed_side=side, selfembed_variant=v))))
+    # the same struct type embedded twice at different depths (seeded change C09-5): guards and allocations follow the SHALLOWER path
+    for side in ("src", "dest", "src", "dest"):
+        out.append(("embedded-twice-" + side, g.pair(**dict(BASE, embeds=1.0, ptr_embed=0.9, depth2=1.0, deep=0.95, diamond=1.0, diamond_side=side, selfembed=0.0))))
     # finding region: mapper embedded by pointer, methods used
     out.append(("ptr-mapper", g.pair(**dict(BASE, kinds=["func"], n=(2, 3), mapper_ptr=1.0, flags={"way": "both"}))))
     out.append(("ptr-mapper-idle", g.pair(**dict(BASE, kinds=["same", "sub"], n=(2, 3), mapper_ptr=1.0, mapper_idle=1.0, func_over=0.0))))
